@@ -1089,3 +1089,21 @@ End Proofs.
 Lemma wf_example : wf (Chan [1; 2]%Z 2 false [3]%Z 0) /\ wf (Chan ([] : list Z) 0 false [] 2) /\
                    wf (Chan [5]%Z 3 true [] 0).
 Proof. unfold wf; cbn. repeat split; intros; try discriminate; try lia; try congruence; auto. Qed.
+
+Lemma parked_example :
+  run 0%Z (map AHelp [true; true; true; true; true]) (World (Chan [1; 2]%Z 2 false [3; 4; 5]%Z 0) false [], RecvQueued 4%Z)
+    = (World (Chan [5]%Z 2 false [] 0) false
+         [Rcvd Helper 1%Z; Sent Env 3%Z; Rcvd Helper 2%Z; Sent Env 4%Z; Rcvd Helper 3%Z; Sent Env 5%Z; Rcvd Helper 4%Z],
+       PRet (RList [1; 2; 3; 4]%Z)) /\
+  run 0%Z (map AHelp [true; true; true; true]) (World (Chan ([] : list Z) 0 false [7; 8]%Z 0) false [], RecvQueuedFull [9; 9; 9]%Z)
+    = (World (Chan [] 0 false [] 0) false [Sent Env 7%Z; Rcvd Helper 7%Z; Sent Env 8%Z; Rcvd Helper 8%Z],
+       PRet (RFull 2 [7; 8; 9]%Z))
+  /\
+  (* the same instance in the terms of the theorem: senders 3,4,5 completed, 5 sits in the buffer, nobody parked *)
+  parked_after [1; 2]%Z [3; 4; 5]%Z 2 false 0 false [] 4
+    (World (Chan [5]%Z 2 false [] 0) false
+       [Rcvd Helper 1%Z; Sent Env 3%Z; Rcvd Helper 2%Z; Sent Env 4%Z; Rcvd Helper 3%Z; Sent Env 5%Z; Rcvd Helper 4%Z]).
+Proof.
+  split; [vm_compute; reflexivity|]. split; [vm_compute; reflexivity|].
+  eexists _, _. split; [reflexivity|]. vm_compute. repeat split.
+Qed.
